@@ -61,10 +61,17 @@ PLACEHOLDER_US = R.local_us(1990, 1, 1)
 STATS = None
 
 
+def _dt_in_zone(year):
+    """1 January of `year`, 00:00 UTC, written in the zone the server happens to use (the instant is what counts)."""
+    off = [0, -210, 330, -570, 0][year % 5]
+    y, mo, d, h, mi, s, us = R.fields_from_us(year_us(year) + off * 60 * 10**6)
+    return ["dt", y, mo, d, h, mi, s, us, off, None if year % 2 else "LOC"]
+
+
 def profile_bytes(server, year, variant=0, sonrs_status=None):
     # the sign-on response carries a DTPROFUP of its own that differs from the profile's (odd years: later, even: earlier)
     so = F.dt_tag(year + 40, 6, 15) if year % 2 else F.dt_tag(max(1995, year - 40), 6, 15)
-    return F.profile_response({"BANKMSGSET": server["url"]}, F.dt_tag(year), code=0, extra_finame="Bank " + "x" * (7 * variant) + str(year), sonrs_dtprofup=so, sonrs_status=sonrs_status)
+    return F.profile_response({"BANKMSGSET": server["url"]}, _dt_in_zone(year), code=0, extra_finame="Bank " + "x" * (7 * variant) + str(year), sonrs_dtprofup=so, sonrs_status=sonrs_status)
 
 
 def new_client(server):
@@ -150,7 +157,7 @@ class CacheMachine(RuleBasedStateMachine):
         if STATS is not None:
             STATS.fail(key, list(self.history), f"step {self.history[-1]}: {detail}")
 
-    @rule(si=st.sampled_from([0, 0, 0, 0, 0, 1, 2, 3, 4, 4, 5, 6]), who=st.sampled_from(["same", "same", "restart", "second", "other", "other", "override", "scan"]), behaviour=st.sampled_from(["newer", "newer", "same", "older", "uptodate", "uptodate", "errstatus", "garbage", "transport", "newer-signon-status"]))
+    @rule(si=st.sampled_from([0, 0, 0, 0, 0, 1, 2, 3, 4, 4, 5, 6]), who=st.sampled_from(["same", "same", "restart", "second", "other", "other", "override", "scan"]), behaviour=st.sampled_from(["newer", "newer", "same", "older", "uptodate", "uptodate", "errstatus", "garbage", "transport", "newer-signon-status", "truncated"]))
     def request(self, si, who, behaviour):
         if who == "scan":
             return _scan_rule(self, si, {"same": "uptodate", "errstatus": "garbage", "transport": "garbage"}.get(behaviour, behaviour))
@@ -215,6 +222,13 @@ class CacheMachine(RuleBasedStateMachine):
             self.plan = ("ok", F.profile_response({}, None, code=2000))
         elif behaviour == "garbage":
             self.plan = ("ok", b"<html><body>Service temporarily unavailable</body></html>")
+        elif behaviour == "truncated":
+            # a newer profile whose transmission broke off in its last bytes: malformed data, not a profile
+            y = self.maxyear.get(si, server["base"]) + 1
+            full = profile_bytes(server, y, variant=y % 3)
+            cut = [4, 7, 13, 22, 40, 61][len(self.history) % 6]
+            self.plan = ("ok", full[:-cut])
+            self.flags.add("reply cut off in its last bytes")
         else:
             self.plan = ("transport", None)
         if held is not None and behaviour in ("uptodate", "errstatus", "garbage", "transport", "older"):
